@@ -132,7 +132,7 @@ func (g *gen) sourcesOf(vt int, dst *gnode) []*gnode {
 }
 
 var paramTags = []string{"f64", "int", "str", "bool", "v2", "v3", "v3arr", "aabb", "color", "file", "image", "f32", "strs"}
-var procTags = []string{"sum", "join", "describe", "cat", "text", "binary", "imageart"}
+var procTags = []string{"sum", "join", "describe", "cat", "text", "binary", "imageart", "mix"}
 
 // tag of a parameter type producing value type vt
 func paramTagFor(vt int) string {
@@ -565,7 +565,7 @@ func genHist(r *hx.Rng, run *hx.Run, i int) histDesc {
 		}
 		run.Count("flavour:general")
 	case 1: // many connections on one array input (ten or more in particular)
-		field := hx.Pick(r, []string{"sum", "join", "describe"})
+		field := hx.Pick(r, []string{"sum", "join", "describe", "mix", "mix"})
 		dst := g.create(field)
 		var p portInfo
 		for _, q := range tyTable[dst.ti].Ports {
@@ -592,6 +592,23 @@ func genHist(r *hx.Rng, run *hx.Run, i int) histDesc {
 			}
 		}
 		nconn := hx.Pick(r, []int{0, 1, 9, 10, 11, 11, 12, 13, 15, 17, 20, 25, 25, r.Range(11, 25), r.Range(0, 25)})
+		if run.Tier == "thorough" && i%30 == 1 {
+			// connection counts around every decimal-width boundary of the index (99|100, 999|1000)
+			nconn = hx.Pick(r, []int{99, 100, 101, 102, 110, 111, 130, 200, 250, 999, 1000, 1001, 1010, r.Range(100, 1100)})
+			run.Count("array-connections:width-boundary")
+		}
+		// a second array port of the same node (same value type) gets connections too
+		var p2 *portInfo
+		for k, q := range tyTable[dst.ti].Ports {
+			if q.Array && q.Name != p.Name && q.VT == p.VT && r.Chance(1, 2) {
+				p2 = &tyTable[dst.ti].Ports[k]
+			}
+		}
+		if p2 != nil {
+			for k, m := 0, hx.Pick(r, []int{1, 2, 10, 11, 12, 13}); k < m; k++ {
+				g.connect(hx.Pick(r, srcs), dst, *p2)
+			}
+		}
 		for k := 0; k < nconn; k++ {
 			g.connect(hx.Pick(r, srcs), dst, p)
 			if r.Chance(1, 12) && len(dst.ins[p.Name]) > 1 { // middle disconnect
@@ -609,7 +626,7 @@ func genHist(r *hx.Rng, run *hx.Run, i int) histDesc {
 			g.do(Op{K: "producer", ID: t.id, S: "out.txt"})
 		} else if tyTable[dst.ti].Out == vtF64 {
 			j := g.create("join")
-			g.connect(dst, j, tyTable[j.ti].Ports[1])
+			g.connect(dst, j, tyTable[j.ti].Ports[1]) // Numbers
 			t := g.create("text")
 			g.connect(j, t, tyTable[t.ti].Ports[0])
 			g.do(Op{K: "producer", ID: t.id, S: "sum.txt"})
@@ -682,8 +699,53 @@ func genHist(r *hx.Rng, run *hx.Run, i int) histDesc {
 
 func hist(ops ...Op) histDesc { return histDesc{AppName: "Graph", AppVersion: "v0.0.1", Ops: ops} }
 
+// bigArrays: one node of type tag, nsrc float parameters with distinct values, and for every (field, n) n
+// connections on that array port with the sources taken cyclically (7 sources: any misplaced element is
+// visible as a changed neighbour); then disconnects in the middle, a reconnect, and an artifact.
+func bigArrays(tag string, nsrc int, fields []string, counts []int, middle bool) histDesc {
+	ops := []Op{{K: "create", Ty: tag}}
+	for k := 1; k <= nsrc; k++ {
+		id := fmt.Sprintf("Node-%d", k)
+		ops = append(ops, Op{K: "create", Ty: "f64"}, Op{K: "update", ID: id, Msg: b64([]byte(fmt.Sprint(k)))})
+	}
+	c := 0
+	for fi, f := range fields {
+		for k := 0; k < counts[fi]; k++ {
+			ops = append(ops, Op{K: "connect", Src: fmt.Sprintf("Node-%d", 1+c%nsrc), ID: "Node-0", Port: fmt.Sprintf("%s.%d", f, k)})
+			c++
+		}
+	}
+	if middle {
+		for fi, f := range fields {
+			if n := counts[fi]; n >= 12 {
+				ops = append(ops, Op{K: "disconnect", ID: "Node-0", Port: fmt.Sprintf("%s.%d", f, n/2)},
+					Op{K: "disconnect", ID: "Node-0", Port: fmt.Sprintf("%s.%d", f, 10)},
+					Op{K: "disconnect", ID: "Node-0", Port: fmt.Sprintf("%s.0", f)},
+					Op{K: "connect", Src: "Node-2", ID: "Node-0", Port: fmt.Sprintf("%s.%d", f, n-3)},
+					Op{K: "connect", Src: "Node-1", ID: "Node-0", Port: fmt.Sprintf("%s.%d", f, n-2)})
+			}
+		}
+	}
+	j, t := fmt.Sprintf("Node-%d", nsrc+1), fmt.Sprintf("Node-%d", nsrc+2)
+	ops = append(ops, Op{K: "create", Ty: "join"}, Op{K: "connect", Src: "Node-0", ID: j, Port: "Numbers.0"},
+		Op{K: "create", Ty: "text"}, Op{K: "connect", Src: j, ID: t, Port: "In"}, Op{K: "producer", ID: t, S: "big.txt"})
+	return hist(ops...)
+}
+
+// widthBoundaryHistories: array inputs whose index crosses a decimal width (2 -> 3 digits at 100, 3 -> 4 at
+// 1000): a comparator that is right for short indices only (zero padding, fixed-width keys, lexicographic
+// fallbacks) shows from 101 resp. 1001 connections on.
+func widthBoundaryHistories() []histDesc {
+	return []histDesc{
+		bigArrays("sum", 7, []string{"Values", "ValuesB"}, []int{101, 12}, false),
+		bigArrays("mix", 7, []string{"Values", "Values2", "Vals"}, []int{100, 130, 11}, true),
+		bigArrays("sum", 7, []string{"Values"}, []int{1001}, false),
+	}
+}
+
 func fixedHistories() []histDesc {
 	out := []histDesc{hist()}
+	out = append(out, widthBoundaryHistories()...)
 	// 11 and 12 connections on one array input, distinct values (DESIGN.md §5 entry 13)
 	for _, n := range []int{11, 12, 25} {
 		ops := []Op{{K: "create", Ty: "sum"}}
